@@ -99,9 +99,7 @@ pub fn full_menu() -> Vec<Expr> {
     m.push(t(Test::Type(vec![FType::Block, FType::Char, FType::Pipe])));
     for k in [PermKind::Equal, PermKind::AtLeast, PermKind::Any] {
         for b in [0o644u32, 0o111, 0o4000, 0o7777, 0o020, 0] {
-            if !(k == PermKind::Any && b == 0) {
-                m.push(t(Test::Perm(k, b)));
-            }
+            m.push(t(Test::Perm(k, b)));
         }
     }
     for p in ["file.txt", "FILE.TXT", "*.txt", "f?le*", "[a-f]*", "dir/*"] {
